@@ -104,6 +104,14 @@ func (fe *FnEnc) call(ins ssa.Instruction, c *ssa.CallCommon, rt types.Type) Val
 		fe.afterCall(f.name, rv, pos)
 		fe.checkOnly = false
 		return fe.forgetHinted(rv, rt, pos)
+	case contractFn:
+		// a function value whose calls are specified by a named (assumed) contract: the value's identity is
+		// the contract's first parameter
+		ct := fe.g.db.Contracts[f.key]
+		if ct == nil {
+			return fe.unknownCall("function value with unknown contract "+f.key, args, rt)
+		}
+		return fe.useContract(ct, append([]Val{{Term: f.id}}, args...), rt, pos, f.key)
 	case *ssa.Builtin:
 		return fe.builtin(f, c, args, rt, pos)
 	case *ssa.Function:
@@ -1140,6 +1148,10 @@ func (fe *FnEnc) useContractFn(ct *Contract, callee *ssa.Function, args []Val, r
 				resVals = append(resVals, fe.freshVal("r_"+ct.Name, tup.At(i).Type()))
 			}
 			res = Val{T: rt, Tup: resVals}
+		} else if fn := ct.Opts["returns_contract"]; fn != "" {
+			// the result is a function value whose calls follow the named contract (e.g. an iterator's next)
+			res = Val{T: rt, Fn: contractFn{key: ct.PkgPath + "." + fn, id: s.fresh("fnid", "Int")}}
+			resVals = []Val{res}
 		} else if fn := ct.Opts["returns_fn"]; fn != "" {
 			// the result is a function value that computes the named spec function (e.g. a hasher)
 			res = Val{T: rt, Fn: specFn{name: fn, pkg: ct.PkgPath}}
@@ -1280,6 +1292,9 @@ func (fe *FnEnc) calleeWritesCheck(ct *Contract, pos token.Pos) {
 
 // noopFn is a function value whose call has no effect on modelled state (context cancel functions).
 type noopFn struct{}
+
+// contractFn is a function value whose calls follow a named contract; id identifies the value (fnid(x) in contracts).
+type contractFn struct{ key, id string }
 
 // specFn is a function value that computes a spec-level (uninterpreted or defined) function of its arguments.
 type specFn struct{ name, pkg string }
